@@ -644,23 +644,29 @@ void MEDDLY::forest::createReducedNode(unpacked_node *un, edge_value &ev,
                     // Round any terminal values based on termprec
                     // AND count number of nonzeroes.
                     for (unsigned i=0; i<un->getSize(); i++) {
+                        if (un->down(i) < 0) {
+                            // Terminal that needs rounding
+                            terminal T(terminal_type::REAL, un->down(i));
+
+                            T.adjustReal(
+                                    round(T.getReal() / termprec) * termprec
+                            );
+
+                            un->down(i) = T.getHandle();
+                        }
                         if (un->down(i) == 0) {
-                            // Terminal 0
+                            // Terminal 0 (possibly after rounding)
                             continue;
+                        }
+                        if (un->isSparse() && nnz != i) {
+                            // Close the gap left by entries that became 0
+                            un->index(nnz) = un->index(i);
+                            un->down(nnz) = un->down(i);
                         }
                         ++nnz;
-                        if (un->down(i) > 0) {
-                            // Nonterminal
-                            continue;
-                        }
-                        // Terminal that needs rounding
-                        terminal T(terminal_type::REAL, un->down(i));
-
-                        T.adjustReal(
-                                round(T.getReal() / termprec) * termprec
-                        );
-
-                        un->down(i) = T.getHandle();
+                    }
+                    if (un->isSparse()) {
+                        un->shrink(nnz);
                     }
                 } else {
                     // Just count nonzeroes
